@@ -78,7 +78,9 @@ def check(tier, seed):
         if rs.get("oracle_err") is not None:
             rep.worst("worst_simulate_vs_superposition_K", rs["oracle_err"])
         wit = {"scenario": rec["cfg"], "final": {k: f[k] for k in ("nbh", "H", "hmin", "hmax", "tmax", "tmin", "cap", "flag")}, "resim": rs}
-        jump = rs.get("excess_1mm_above") is not None and rs["excess_1mm_above"] < 0 < rs["excess_1mm_below"] and rs["excess"] <= 2e-2
+        # a sign change within +-1 mm cannot come from a continuous objective (slopes are ~0.01-0.3 K/m): it is a jump, and the returned
+        # excess lies between the two sides of it
+        jump = rs.get("excess_1mm_above") is not None and rs["excess_1mm_above"] < 0 < rs["excess_1mm_below"] and rs["excess"] <= rs["excess_1mm_below"] + 1e-9
         if rs["excess"] > TOL and jump:
             rep.violate("root-on-a-jump-of-the-sizing-objective",
                         f"{PC.method_of(rec)} {f['nbh']} bh: excess {rs['excess']:.3g} K at H={f['H']:.5f} m, {rs['excess_1mm_below']:.3g} K 1 mm below and {rs['excess_1mm_above']:.3g} K 1 mm above", wit)
